@@ -807,7 +807,7 @@ func (r *c17Runner) stepReq(i int, st c17Step) (violation string, stop bool) {
 			stats["saved-with-sources"]++
 		}
 	}
-	deadline := time.Now().Add(10 * time.Second)
+	deadline := time.Now().Add(2 * time.Minute) // slowness of a loaded machine must never read as "not stored"
 	var newID string
 	for pause := 100 * time.Microsecond; ; {
 		for id, meta := range r.listCache() {
@@ -827,7 +827,7 @@ func (r *c17Runner) stepReq(i int, st c17Step) (violation string, stop bool) {
 		}
 	}
 	if newID == "" {
-		return fmt.Sprintf("%s => was answered by upstream (200) but the answer was not stored in the cache index within 10 s, so a repeat can never be served from the cache", what), true
+		return fmt.Sprintf("%s => was answered by upstream (200) but the answer was not stored in the cache index within 2 min, so a repeat can never be served from the cache", what), true
 	}
 	m.ents = append(m.ents, &c17Ent{ID: newID, Vec: vec, Resp: body, Sources: sources, Present: true, Dynamic: true, T0: n0, T1: time.Now()})
 	if len(d.ExpIn) == 1 {
